@@ -13,6 +13,7 @@ import NanoVerif.Model.Valid
 import NanoVerif.Model.PaintedLayers
 import NanoVerif.Model.Ninja
 import NanoVerif.Model.Sched
+import NanoVerif.Model.ColrSvg
 /-
 Correspondence driver.  One JSON object per input line: {"op": ..., ...}; one JSON object per
 output line.  Run: `lake env lean --run Driver.lean < ops.jsonl`.
@@ -161,6 +162,29 @@ partial def jPNode : PNode → Json
   | .glyph id => obj [("k", "glyph"), ("id", Json.str (toString id))]
   | .composite a l => obj [("k", "composite"), ("alpha", jQ a), ("layers", Json.arr (l.map jPNode).toArray)]
 
+partial def getCP (j : Json) : Except String CP := do
+  let k ← getStr (← field j "k")
+  match k with
+  | "solid" => return .solid (← getNat (← field j "c")) (← getQ (← field j "a"))
+  | "lin" =>
+      let g ← getQs (← field j "g")
+      match g with
+      | [x0, y0, x1, y1, x2, y2] => return .lin ⟨⟨x0, y0⟩, ⟨x1, y1⟩, ⟨x2, y2⟩⟩ (← getNat (← field j "l"))
+      | _ => .error "lin needs 6 numbers"
+  | "glyph" => return .glyph (← getNat (← field j "o")) (← getCP (← field j "child"))
+  | "transform" => return .transform (← getAff (← field j "m")) (← getCP (← field j "child"))
+  | "layers" => return .layers (← (← getArr (← field j "ps")).mapM getCP)
+  | "group" => return .group (← getQ (← field j "alpha")) (← getCP (← field j "child"))
+  | _ => .error "bad CP"
+
+partial def jSV : SV → Json
+  | .path o tr f =>
+    let jf := match f with
+      | .solid c a => obj [("k", "solid"), ("c", jI (Int.ofNat c)), ("a", jQ a)]
+      | .lin g l => obj [("k", "lin"), ("g", jQs [g.p0.x, g.p0.y, g.p1.x, g.p1.y, g.p2.x, g.p2.y]), ("l", jI (Int.ofNat l))]
+    obj [("k", "path"), ("o", jI (Int.ofNat o)), ("tr", jAff tr), ("fill", jf)]
+  | .g a kids => obj [("k", "g"), ("opacity", jQ a), ("kids", Json.arr (kids.map jSV).toArray)]
+
 /-- one step of a ninja-model history; returns the new directory, the edges that produced a new output, `visible` -/
 def ninjaStep (b : BuildDir) (j : Json) : Except String (BuildDir × Bool) := do
   let a ← getArr j
@@ -192,6 +216,10 @@ def jDir (old : BuildDir) (b : BuildDir) (vis : Bool) : Json :=
 
 def dispatch (op : String) (j : Json) : Except String Json := do
   match op with
+  | "colr-to-svg" =>
+      let p ← getCP (← field j "paint")
+      let V ← getAff (← field j "V")
+      return obj [("svg", Json.arr ((toSvg V Aff.id p).map jSV).toArray)]
   | "sched-run" =>
       -- deps: list of lists (node i depends on deps[i]); step function: (sum of inputs) * 31 + n * 7 + 1; schedule: list of nodes
       let deps ← (← getArr (← field j "deps")).mapM getNats
